@@ -16,6 +16,13 @@ const OFF_MAX: u64 = 1 << 40;
 /// messages gets offsets cur+1.. (or 0.. when the partition never held a message), in order, and the
 /// invariant holds again.
 fn step(n: usize, allow_buffered: bool) {
+    step_shape(n, allow_buffered, false)
+}
+
+/// `rolled`: the last segment is the fresh, still empty one that `add_persisted_segment(end + 1)` creates
+/// after a roll-over (start = current = previous end + 1, size 0) while the partition's current
+/// offset is still the previous end.
+fn step_shape(n: usize, allow_buffered: bool, rolled: bool) {
     typed_arc!(cfg: crate::configs::system::SystemConfig = system_config());
     let st = storage(&cfg);
     let c = counters();
@@ -28,7 +35,15 @@ fn step(n: usize, allow_buffered: bool) {
     let start: u64 = kani::any();
     kani::assume(cur < OFF_MAX && start <= cur);
     let buffered: bool = if allow_buffered { kani::any() } else { false }; // one earlier message still in the accumulator
-    if ever {
+    if ever && rolled {
+        kani::assume(!buffered);
+        p.should_increment_offset = true;
+        p.current_offset = cur;
+        let seg = p.segments.last_mut().unwrap();
+        seg.start_offset = cur + 1;
+        seg.current_offset = cur + 1; // what Segment::create(start) sets
+        seg.size_bytes = IggyByteSize::from(0u64);
+    } else if ever {
         p.should_increment_offset = true;
         p.current_offset = cur;
         let seg = p.segments.last_mut().unwrap();
@@ -42,6 +57,8 @@ fn step(n: usize, allow_buffered: bool) {
             p.unsaved_messages_count = 1;
         }
         p.messages_count.store(cur - start + 1, Ordering::SeqCst);
+    } else if rolled {
+        kani::assume(false); // a roll-over implies earlier messages
     } else {
         kani::assume(cur == 0 && start == 0 && !buffered);
     }
@@ -100,26 +117,28 @@ fn step(n: usize, allow_buffered: bool) {
     assert!(c.msgs_topic.load(Ordering::SeqCst) == n as u64);
     assert!(c.size_topic.load(Ordering::SeqCst) == 46 * n as u64);
     kani::cover!(ever && (buffered || !allow_buffered), "append after earlier messages");
-    kani::cover!(!ever, "first append ever");
+    kani::cover!(!ever || rolled, "first append ever (or, in the after-roll shape, first append to the fresh segment)");
     core::mem::forget(p);
     core::mem::forget(st);
     core::mem::forget(cfg);
 }
 
 macro_rules! step_harness {
-    ($name:ident, $n:expr, $b:expr) => {
+    ($name:ident, $n:expr, $b:expr) => { step_harness!($name, $n, $b, false); };
+    ($name:ident, $n:expr, $b:expr, $r:expr) => {
         harness_sync! {
             #[kani::stub(crate::verif::sync::streaming::segments::segment::Segment::persist_messages, crate::verif::su::cut_persist_messages)]
             #[kani::stub(crate::verif::sync::streaming::partitions::partition::Partition::add_persisted_segment, crate::verif::su::cut_add_persisted_segment)]
             #[kani::stub(crate::verif::sync::streaming::segments::segment::Segment::is_full, crate::verif::su::summary_is_full_open)]
             #[kani::unwind(5)]
-            fn $name() { step($n, $b) }
+            fn $name() { step_shape($n, $b, $r) }
         }
     };
 }
 step_harness!(c01_append_step_n1, 1, false);
 step_harness!(c01_append_step_n1_buffered, 1, true);
 step_harness!(c01_append_step_n2, 2, false);
+step_harness!(c01_append_step_after_roll_n2, 2, false, true);
 step_harness!(c01_append_step_n3_t, 3, false);
 
 // ---- C16: the same step, registered under C16 for its counter assertions (partition, topic and
